@@ -728,11 +728,17 @@ class _RWHooks(sc.SearchHooks):
             return Seq([Obj(tag), Rat.atom(f"SPEC({vkey(sp)})")], "tuple")
         if fname == "gen_shape":
             return Seq([Rat.atom("PROP"), Rat.atom("NOGO")], "tuple")
-        if fname == "point_sort" and len(args) >= 2:
-            return Obj(f"PERM({vkey(args[1])})")  # the same boreholes, reordered (shape checked in C01)
+        perms = self._perms(eng)
+        if fname in perms and len(args) > perms[fname][1]:
+            return Obj(f"PERM({vkey(args[perms[fname][1]])})")  # the same boreholes, reordered (a helper whose every return is a plain reordering)
         if fname and fname.endswith(".append") and fname.startswith("self."):
             return Const(None)
         return super().on_call(node, fname, args, kwargs, st, eng)
+
+    def _perms(self, eng):
+        if not hasattr(self, "_perm_tab"):
+            self._perm_tab = sc.permutation_helpers(eng.prog, eng.fi)
+        return self._perm_tab
 
     def on_misc(self, kind, node, st, eng):
         if kind == "none-use":
